@@ -97,4 +97,10 @@ TEXT = {
   "note": "tree crossover with an abstract starting symbol: open finding",
   "technique": "TLA+ model checking (TLC) of the recombination definitions + trace validation of recorded variation calls",
  },
+ "C07": {
+  "level": "TLC explores all interleavings of create / map / draw / mutate over <= 3 genotypes (GEMapping) and checks MapStable, MapDoesNotDraw and append-only gene extension, for fixed-length and dynamically extended genotypes (an impure variant - the pinned GE / SGE behaviour - must fail); TLC-generated interleavings are replayed on the real GE / SGE / dSGE / stack representations with several deciders and grammars with refined fields, around a counting wrapper of the shared source, and TLC validates every mapping event: same program as the first mapping of that genotype, no raw draw on the shared source other than the genes dSGE appends, genotype unchanged except by such an extension.",
+  "ref": "DESIGN.md section 4 C07",
+  "note": "interleavings sampled beyond length 2; purity is judged by raw-draw counts on the shared source",
+  "technique": "TLA+ model checking (TLC) of mapping/stream interleavings + replay of TLC-generated interleavings with trace validation",
+ },
 }
